@@ -247,6 +247,9 @@ pub enum Step {
     ServerFrame { tick: bool },
     /// `n` server frames without a tick (time passes: acknowledgement timeouts can fire while acks are still in flight)
     IdleFrames { n: u8 },
+    /// one server frame without a tick that takes `secs` seconds of real time (a hitch): Bevy's virtual clock advances by at
+    /// most 250 ms in it, so from then on the real and the virtual clock are apart
+    LongFrame { secs: u8 },
     /// a tick frame that advances the server tick by `by` (manual policy; gaps around the 64-tick window)
     TickJump { by: u8 },
     /// everybody in sync, advance the server tick by about 2^30, touch every replicated entity so that every live tick is
